@@ -205,16 +205,32 @@ def rule_axismirror(ctx):
     f = ctx.program.func("pattern._compute_score_matrix", R)
     s = ctx.S.get(f.qual)
     st = [m for m in s.by_kind("mutate") if m.how == "setitem" and m.key.op == "tuple"]
-    need(len(st) == 1, R, "_compute_score_matrix: single cell store expected")
-    cell = st[0].val
-    ic = [x for x in tm.walk(cell) if x.op == "call" and call_name(x) == "pattern._occurrence_intersection"]
-    need(len(ic) == 1 and len(ic[0].a[1]) == 2, R, "_compute_score_matrix: intersection call not found")
-    x, y = ic[0].a[1]
-    swapped = tm.rebuild(cell, lambda z: y if z is x else (x if z is y else None))
-    M0 = Mirror(f)
-    # both operands must be the plain loop elements of the two sides (a transformation applied to one side only breaks the mirror)
-    plain = x.op == "iter" and y.op == "iter" and x.a[0].op in ("param",) and y.a[0].op in ("param",)
-    yield ob(R, f, "pattern._compute_score_matrix:cell-symmetric", plain and M0.norm(swapped) is M0.norm(cell), "the cell |P_i & Q_j| / max(|P_i|, |Q_j|) is unchanged when the two occurrences are exchanged, so the matrix of the swapped call is the transpose")
+    if not st:
+        # vectorised form: <matrix of |P_i & Q_j|> / np.maximum.outer(<sizes on the P side>, <sizes on the Q side>)
+        main = [r for r in s.returns if not is_lit(r.term)]
+        need(len(main) == 1, R, "_compute_score_matrix: neither a cell store nor a single matrix expression")
+        t = main[0].term
+        dens = [x for x in tm.walk(t) if x.op == "call" and call_name(x) == "np.maximum.outer" and len(x.a[1]) == 2]
+        need(len(dens) == 1 and t.op == "bin" and t.a[0] == "/", R, "_compute_score_matrix: vectorised form is not <intersections> / np.maximum.outer(sizes, sizes)")
+        A, B = dens[0].a[1]
+        Mx = Mirror(f, subst={f.params[0]: tm.param(f.params[1]), f.params[1]: tm.param(f.params[0])})
+        M0 = Mirror(f)
+        sym_den = Mx.norm(A) is M0.norm(B)
+        num = t.a[1]
+        inter = [x for x in tm.walk(num) if x.op == "bin" and x.a[0] == "&"] + [x for x in tm.walk(num) if x.op == "call" and call_name(x) in (".intersection", "pattern._occurrence_intersection")]
+        yield ob(R, f, "pattern._compute_score_matrix:cell-symmetric", sym_den and bool(inter), "cells are |P_i & Q_j| / max(|P_i|, |Q_j|) with both sizes taken the same way" if sym_den and inter else "the two size vectors of the denominator are not mirror images (%s vs %s): one side is de-duplicated or transformed and the other is not, so the matrix of the swapped call is not the transpose" % (tm.show(A, 3), tm.show(B, 3)))
+        st = None
+    need(st is None or len(st) == 1, R, "_compute_score_matrix: single cell store expected")
+    cell = st[0].val if st else None
+    ic = [x for x in tm.walk(cell) if x.op == "call" and call_name(x) == "pattern._occurrence_intersection"] if st else []
+    if st:
+        need(len(ic) == 1 and len(ic[0].a[1]) == 2, R, "_compute_score_matrix: intersection call not found")
+        x, y = ic[0].a[1]
+        swapped = tm.rebuild(cell, lambda z: y if z is x else (x if z is y else None))
+        M0 = Mirror(f)
+        # both operands must be the plain loop elements of the two sides (a transformation applied to one side only breaks the mirror)
+        plain = x.op == "iter" and y.op == "iter" and x.a[0].op in ("param",) and y.a[0].op in ("param",)
+        yield ob(R, f, "pattern._compute_score_matrix:cell-symmetric", plain and M0.norm(swapped) is M0.norm(cell), "the cell |P_i & Q_j| / max(|P_i|, |Q_j|) is unchanged when the two occurrences are exchanged, so the matrix of the swapped call is the transpose")
     g = ctx.program.func("pattern._occurrence_intersection", R)
     sg = ctx.S.get(g.qual)
     t = sg.returns[0].term
